@@ -2,6 +2,7 @@
 //! `None` = this op has no model (differential-only).
 use crate::req::{Req, Resp};
 pub mod consts;
+pub mod eddsa;
 pub mod edwards;
 pub mod field;
 pub mod montgomery;
@@ -26,6 +27,9 @@ pub fn exec(req: &Req) -> Option<Resp> {
     }
     if op.starts_with("rs.") {
         return ristretto::exec(op, &req.a);
+    }
+    if op.starts_with("sig.") {
+        return eddsa::exec(op, &req.a);
     }
     if op.starts_with("mt.") || op.starts_with("x.") {
         return montgomery::exec(op, &req.a);
